@@ -4,20 +4,20 @@ Kernels (DESIGN.md section 4, C15):
   K1  the recursive walk behind `dir-contents -recursive [-min-depth a] [-max-depth b]`, `-selection`,
       `-with-pruned`: through the REAL `exists PATH : FILE-MATCHER` instruction on real directory
       fixtures (files, directories, symbolic links to both, broken links).  Symbolic: the depth
-      limits (all of Z; negative ones must be rejected by validation), the verdict of every
+      limits (every integer >= -99; negative ones must be rejected by validation), the verdict of every
       selection / prune matcher per file (stub matchers bound to symbols).  Oracle: the documented
       set "depth in [min, max], no ancestor pruned, selected".
-  K2  the files-matchers applied to that set: num-files (operator and operand symbolic), is-empty,
+  K2  the files-matchers applied to that set: num-files (operand symbolic, one obligation per operator), is-empty,
       every / any file, matches / matches -full with FILES-CONDITIONs, `type`, nested `dir-contents`,
       negation of the instruction.
   K3  populating: the REAL `dir` instruction (setup phase) with a FILE-LIST chosen [selector] from a
       catalogue of FILE-SPECs, applied to real directories; oracle: a fold of the documented
       semantics over an in-memory tree; nothing outside the populated directory changes.
   K4  FILE-NAME validation [selector]: every name of <= n characters over {a . / :}, through the same instruction.
-  K6  file names: stem / suffixes / suffix of EVERY name (symbolic string) as documented; the matchers name, stem,
-      suffixes, suffix, path with glob and regex patterns [selector] on a real fixture through `-selection`.
   K5  `file_creation.create_file` [selector] (used for transformed program output, not by FILE-LISTs): None iff the
       file was created, intermediate directories made, nothing touched on failure, file removed if the writer raises.
+  K6  file names: stem / suffixes / suffix of EVERY name (symbolic string) as documented; the matchers name, stem,
+      suffixes, suffix, path with glob and regex patterns [selector] on a real fixture through `-selection`.
 """
 import os
 from typing import List, Tuple
@@ -99,13 +99,21 @@ class _PerFile:
 
 
 class _Recorder:
-    """verdict_of for the stub FILES-MATCHER `REC`: records the model's files, verdict True."""
+    """verdict_of for the stub FILES-MATCHER `REC`: records the model's files (path relative to the root of the
+    model; marked BAD if the absolute path of the file is not root/relative-path), verdict True."""
 
-    def __init__(self, listings: list):
+    def __init__(self, listings: list, root: str):
         self.listings = listings
+        self.root = root
 
     def __call__(self, model) -> bool:
-        self.listings.append(sorted(str(f.relative_to_root_dir) for f in model.files()))
+        out = []
+        for f in model.files():
+            rel = str(f.relative_to_root_dir)
+            consistent = (os.path.relpath(str(f.path.primitive), self.root) == rel
+                          and str(f.as_file_matcher_model().path.primitive) == str(f.path.primitive))
+            out.append(rel if consistent else 'BAD:' + rel)
+        self.listings.append(sorted(out))
         return True
 
 
@@ -122,7 +130,7 @@ def _symbols(fx: str, sa, sb, pa, pb, log):
         'SB': xly.matcher_symbol(xly.StubMatcher('SB', _PerFile(root, e_idx, sb, log['SB']), sink), ValueType.FILE_MATCHER),
         'PA': xly.matcher_symbol(xly.StubMatcher('PA', _PerFile(root, d_idx, pa, log['PA']), sink), ValueType.FILE_MATCHER),
         'PB': xly.matcher_symbol(xly.StubMatcher('PB', _PerFile(root, d_idx, pb, log['PB']), sink), ValueType.FILE_MATCHER),
-        'REC': xly.matcher_symbol(xly.StubMatcher('REC', _Recorder(log['REC']), sink), ValueType.FILES_MATCHER),
+        'REC': xly.matcher_symbol(xly.StubMatcher('REC', _Recorder(log['REC'], root), sink), ValueType.FILES_MATCHER),
     }
     return xly.symbol_table(tbl)
 
@@ -195,10 +203,6 @@ def _unused_pinned(case, lo, hi, sa, sb, pa, pb) -> bool:
         for i in range(used, len(tup)):
             n = n + tup[i]
     return n == 0
-
-
-def _svh_ok(r) -> bool:
-    return r.is_success
 
 
 # --------------------------------------------------------------------------- K1
@@ -465,7 +469,7 @@ def _entry_catalogue(tier):
         ('file', 'l/n', '=', 'n'),
         ('file', 'e', '+=', 'E'),
     ]
-    if True:
+    if tier == 'thorough':  # (both tiers use this full catalogue; the tiers differ in the length of the lists)
         c += [
             ('dir', 'd/../e', None, None),
             ('file', 'a/b', '=', 'q'),
@@ -839,7 +843,7 @@ def _run_name_matcher(m, negated: bool, rec: bool, oracle_bug: bool) -> bool:
         mtext = '! ' + mtext
     listings = []
     symbols = xly.symbol_table({
-        'REC': xly.matcher_symbol(xly.StubMatcher('REC', _Recorder(listings), []), ValueType.FILES_MATCHER)})
+        'REC': xly.matcher_symbol(xly.StubMatcher('REC', _Recorder(listings, root), []), ValueType.FILES_MATCHER)})
     text = '-rel-act names : dir-contents %s-selection %s REC' % ('-recursive ' if rec else '', mtext)
     instr = lib.parse_instruction('exists', text)
     if not instr.validate_pre_sds(w.env_pre(symbols)).is_success:
@@ -1321,11 +1325,27 @@ def _k6_obligations(tier):
 ASSUMPTIONS = [
     'integer literals are evaluated by a stub of python_evaluate that maps the placeholder names K0.. to symbolic '
     'integers (contract: an integer literal denotes its integer); eval itself is a C boundary',
-    'selection / prune matchers are stub FileMatchers bound to symbols; their verdict per file is an arbitrary boolean',
-    'file names, file contents and the shape of the directory trees are concrete (they cross the OS boundary)',
+    'selection / prune / quantified matchers are stub FileMatchers bound to symbols; their verdict per file is an '
+    'arbitrary boolean; the files matcher REC records the files of the model it is applied to',
+    'file names, file contents and the shape of the directory trees are concrete (they cross the OS boundary): the '
+    'trees, FILE-SPECs, FILES-CONDITIONs and patterns come from the catalogues in this module; in the [selector] '
+    'kernels (K3, K4, K5, K6:names) the real code runs with the CrossHair tracer suspended once every selector is a '
+    'concrete int (harness/_C15_lib.untraced): CrossHair contributes the exhaustive enumeration of the selector space',
+    'the reference model of the file system (harness/_C15_lib.MemFs: regular files, directories, symbolic links that are '
+    'followed, broken links) is compared with the real file system / os.walk / os.makedirs / pathlib by the self-test',
+    'tool work-around: CrossHair is kept from "short-circuiting" its own contract-carrying replacement of builtin hash() '
+    '(harness/_C15_lib._chfix_hash_contract); the real hash is always computed - nothing is assumed',
+    'depth limits below -99 are not explored in K1 (the validator renders the rejected number: unboundedly many digits); '
+    'K2 assumes the depth limits >= 0, the validity that K1 shows validation to enforce',
 ]
 
 OUTSIDE = [
-    'permissions, special files (fifo, device), concurrent modification of the tree',
-    'trees / FILE-LISTs / names outside the stated catalogues and bounds',
+    'permissions, special files (fifo, device), concurrent modification of the tree, symbolic-link cycles',
+    'trees / FILE-LISTs / FILES-CONDITIONs / names / patterns outside the stated catalogues and bounds (no induction over '
+    'trees or lists)',
+    'initial trees with symbolic links that lead to directories OUTSIDE the populated directory (links are followed, so '
+    '`file link/x` then creates outside it)',
+    'the `contents` file matcher and string sources other than short literals (texts: C05 / C14)',
+    'the state of the populated directory after a HARD_ERROR',
+    'the order in which the files of a directory are visited',
 ]
